@@ -26,27 +26,32 @@ Definition feed_target (n : notif) : string := gp_target (gp_of_opt (n_prefix n)
 
 Definition rremove (m : rmap) (keep : dump_entry -> bool) : rmap := filter keep m.
 
-(** an update sets its leaf; an atomic update replaces whatever is at or below
-    its index path, as one unit; a delete removes what its path matches *)
+(** what a consumer of the feed does with one notification (as the gNMI client
+    and a downstream cache do): the update part sets its leaf -- an atomic
+    update replaces whatever is at or below its index path, as one unit --
+    THEN every delete of the notification removes what its path matches.  The
+    cache only ever hands out notifications with an update part or deletes,
+    never both; a consumer cannot know that. *)
 Definition feed_apply (m : rmap) (n : notif) : rmap :=
   let tgt := feed_target n in
-  match n_upd n with
-  | _ :: _ =>
-      match stored_index n with
-      | Ok p =>
-          (tgt, p, n) ::
-          rremove m (fun e =>
-            negb (String.eqb (fst (fst e)) tgt &&
-                  (if n_atomic n then is_prefix p (snd (fst e)) else path_eqb p (snd (fst e)))))
-      | _ => m
-      end
-  | [] =>
-      fold_left (fun m' d =>
-        match join_prefix_and_path (gp_of_opt (n_prefix n)) d with
-        | Ok p => rremove m' (fun e => negb (String.eqb (fst (fst e)) tgt && qmatch p (snd (fst e))))
-        | _ => m'
-        end) (n_del n) m
-  end.
+  let m1 :=
+    match n_upd n with
+    | _ :: _ =>
+        match stored_index n with
+        | Ok p =>
+            (tgt, p, n) ::
+            rremove m (fun e =>
+              negb (String.eqb (fst (fst e)) tgt &&
+                    (if n_atomic n then is_prefix p (snd (fst e)) else path_eqb p (snd (fst e)))))
+        | _ => m
+        end
+    | [] => m
+    end in
+  fold_left (fun m' d =>
+    match join_prefix_and_path (gp_of_opt (n_prefix n)) d with
+    | Ok p => rremove m' (fun e => negb (String.eqb (fst (fst e)) tgt && qmatch p (snd (fst e))))
+    | _ => m'
+    end) (n_del n) m1.
 
 Definition replay (feed : list notif) : rmap := fold_left feed_apply feed [].
 
